@@ -109,6 +109,8 @@ func vh_vote_step() {
 		vCover("vote.other-candidate-same-term")
 		vAssert(!resp.Granted, "C01.vote.once-per-term")
 		vAssert(post.stVoteTerm == pre.stVoteTerm && vSameBlob(post.stVoteCand, pre.stVoteCand), "C01.vote.record-unchanged")
+		vAssert(!resp.Granted, "C06.vote.once-per-term")
+		vAssert(post.stVoteTerm == pre.stVoteTerm && vSameBlob(post.stVoteCand, pre.stVoteCand), "C06.vote.record-unchanged")
 	}
 	// (c) monotone
 	vAssert(post.term >= pre.term && post.stTerm >= pre.stTerm, "C06.vote.term-mono")
